@@ -42,6 +42,12 @@ def run(ctx):
         out.append((f'intervention sampling {k} own dists', dict(interventions=[make_sampler(ss, ss.Intervention, k, 'aa_sampler')]), ['aa_sampler']))
         out.append(('two samplers', dict(analyzers=[make_sampler(ss, ss.Analyzer, 2, 's1'), make_sampler(ss, ss.Analyzer, 5, 's2')]), ['s1', 's2']))
         out.append((f'intervention sampling {k} own dists, listed first', dict(interventions_front=[make_sampler(ss, ss.Intervention, k, 'first_sampler')]), ['first_sampler']))
+        from harness.probes import RefHolderIntv, RefHolderAna, RefHolderConn
+        out.append(('read-only analyzer holding references to the diseases / networks / demographics', dict(analyzers=[RefHolderAna(name='refana')]), ['refana']))
+        out.append(('read-only connector holding references to the diseases / networks / demographics', dict(connectors=[RefHolderConn(name='refconn')]), ['refconn']))
+        out.append(('read-only intervention holding references to the diseases / networks / demographics, listed first', dict(interventions_front=[RefHolderIntv(name='refintv')]), ['refintv']))
+        # the holder is listed BEFORE the modules it refers to (interventions, analyzers, connectors that follow it)
+        out.append(('read-only intervention holding references to the modules listed after it', dict(interventions_front=[RefHolderIntv(which='later', name='refintv2')]), ['refintv2'], 'reference-holder-renames-dists'))
         if 'sir' in kind or 'hiv' in kind:
             out.append(('zero-coverage vaccination', dict(interventions=[ss.routine_vx(product=ss.sir_vaccine(efficacy=0.9), prob=0.0, name='novx')]), ['novx']))
             out.append(('zero-efficacy vaccine', dict(interventions=[ss.routine_vx(product=ss.sir_vaccine(efficacy=0.0), prob=0.5, name='nullvx')]), ['nullvx']))
@@ -66,7 +72,8 @@ def run(ctx):
             base_traces = {tr: int(d.seed) for tr, d in base.dists.dists.items()}
             for tr, sd in base_traces.items():
                 sterms.append(f'({int(sc.sha(tr, asint=True) % 1_000_000_000)}%Z, {seed}%Z, {sd}%Z)'); smeta.append(dict(W, trace=tr))
-            for name, extra, newnames in perturbations(kind, seed):
+            for name, extra, newnames, *fkey in perturbations(kind, seed):
+                fkey = fkey[0] if fkey else None
                 try:
                     p = make_sim(kind, seed, extra=extra); p.run()
                 except Exception as E:
@@ -75,10 +82,16 @@ def run(ctx):
                 fp = fingerprint(p)
                 skip = lambda k: any(nn in k for nn in newnames)
                 d = [k for k in ref if not skip(k) and (k not in fp or fp[k] != ref[k])]
-                if d: viol(f'{kind} (seed {seed}) + {name}: `{d[0]}` of the unperturbed components differs from the base run', dict(W, perturbation=name, first_difference=d[0]))
                 # premise of the model: traces and seeds of the existing distributions unchanged
                 pt = {tr: int(dd.seed) for tr, dd in p.dists.dists.items()}
                 moved = [tr for tr in base_traces if pt.get(tr) != base_traces[tr]]
+                renamed = [tr for tr in pt if any(nn in tr for nn in newnames) and '_watched_' in tr]
+                if fkey and moved and len(renamed) >= len(moved):
+                    # listed finding: the distributions of a module are named after the first object path that reaches them, here the path through the holder
+                    ctx.violation(f'{kind} (seed {seed}) + {name}: distribution `{moved[0]}` of the base configuration is now `{renamed[0]}` with another seed' + (f'; `{d[0]}` of the unperturbed components differs from the base run' if d else ''),
+                                  dict(W, perturbation=name, finding_key=fkey, moved=moved[:5], renamed=renamed[:5]))
+                    continue
+                if d: viol(f'{kind} (seed {seed}) + {name}: `{d[0]}` of the unperturbed components differs from the base run', dict(W, perturbation=name, first_difference=d[0]))
                 if moved: ctx.broke('correspondence', f'{kind} + {name}: distribution `{moved[0]}` of the base configuration has another trace / seed in the perturbed sim', repr(dict(W, perturbation=name)))
             # order of independent diseases
             if kind in ('sir_mf', 'sis_static'):
@@ -92,6 +105,29 @@ def run(ctx):
                 if d: viol(f'{kind} (seed {seed}): listing two independent diseases in the other order changes `{d[0]}`', dict(W, perturbation='order'))
                 d = [k for k in ref if k in fa and fa[k] != ref[k]]
                 if d: viol(f'{kind} (seed {seed}): adding two independent diseases changes `{d[0]}` of the base components', dict(W, perturbation='two extra diseases'))
+    # an independent disease that lives on its own network: the first disease has transmissibility 0 on that network (and vice versa), in every list order
+    for rep in range(ctx.n(1, 3)):
+        seed = rng.randrange(1, 10**5); W = dict(config='disease-with-own-network', seed=seed)
+        def flu(with_mf):
+            b = {'random': ss.beta(0.08)}
+            if with_mf: b['mf'] = ss.beta(0)
+            return ss.SIS(name='flu', beta=b, init_prev=0.05, dur_inf=ss.lognorm_ex(mean=ss.dur(8)))
+        def sti(): return ss.SIS(name='sti', beta={'random': ss.beta(0), 'mf': ss.beta(0.3)}, init_prev=0.1, dur_inf=ss.lognorm_ex(mean=ss.dur(15)))
+        kw = dict(n_agents=400, dur=12, rand_seed=seed, verbose=0)
+        try:
+            b0 = ss.Sim(diseases=[flu(False)], networks=[ss.RandomNet(n_contacts=4)], **kw); b0.run()
+            ref = {k: v for k, v in fingerprint(b0).items() if 'flu' in k}
+            for dorder in (0, 1):
+                for norder in (0, 1):
+                    ds = [flu(True), sti()][::(1 if dorder == 0 else -1)]; ns = [ss.RandomNet(n_contacts=4), ss.MFNet()][::(1 if norder == 0 else -1)]
+                    p = ss.Sim(diseases=ds, networks=ns, **kw); p.run()
+                    name = f'independent disease on its own network (diseases {"flu, sti" if dorder == 0 else "sti, flu"}; networks {"random, mf" if norder == 0 else "mf, random"})'
+                    ctx.count(('own-network', seed, dorder, norder), nontrivial=True); ctx.dist('perturbation disease with its own network')
+                    fp = fingerprint(p)
+                    d = [k for k in ref if k not in fp or fp[k] != ref[k]]
+                    if d: viol(f'flu on a random network (seed {seed}) + {name}: `{d[0]}` of flu differs from the run without the second disease and its network', dict(W, perturbation=name, first_difference=d[0]))
+        except Exception as E:
+            viol(f'disease-with-own-network: run raised {type(E).__name__}: {E}', W)
     bad = ctx.coq_mismatches('c02seeds', IMPORTS, 'Z * Z * Z', sterms, 'Definition ok (c : Z * Z * Z) : bool := let \'(o, b, s) := c in Z.eqb (seed_gen o b) s.', shard=500)
     for j in bad[:3]: ctx.broke('correspondence', 'a distribution\'s seed differs from seed_gen(sha(trace) mod 1e9, base seed)', repr(smeta[j]))
     ctx.cov['replayed_in_coq'] = dict(dist_seeds=len(sterms))
